@@ -666,6 +666,46 @@ theorem equallySpaced_spec (dt : ℚ) (T : List ℚ) (h : equallySpaced dt T = t
         simp only [List.getElem_cons_succ]
         exact ih h.2 k (by simpa using hk)
 
+/-- a converted input has one column per time point. -/
+theorem convertU_length (m k : ℕ) (U : Arr) (us : List (Vector ℚ m))
+    (h : convertU m k U = .ok us) : us.length = k := by
+  cases U with
+  | scalar c => simp only [convertU] at h; injection h with h; subst h; simp
+  | d1 v =>
+    simp only [convertU] at h
+    split at h
+    · rename_i hc; injection h with h; subst h; simpa using hc.2
+    · cases h
+  | d2 r cols =>
+    simp only [convertU] at h
+    split at h
+    · split at h
+      · rename_i hc; injection h with h; subst h; simpa using hc
+      · cases h
+    · cases h
+
+/-- the zero test of the continuous-time fast path (`np.all(U == 0)`) is exact: it holds iff
+every sample of every channel is `0`. -/
+theorem allZero_iff {m : ℕ} (us : List (Vector ℚ m)) :
+    allZero us = true ↔ ∀ u ∈ us, ∀ i : Fin m, u.get i = 0 := by
+  simp only [allZero, List.all_eq_true, decide_eq_true_eq]
+  constructor
+  · intro h u hu i
+    exact h u hu (u.get i) (by simp [Vector.get])
+  · intro h u hu a ha
+    rw [Vector.mem_toList_iff] at ha
+    obtain ⟨i, hi, rfl⟩ := Vector.getElem_of_mem ha
+    exact h u hu ⟨i, hi⟩
+
+theorem allZero_map_get {m : ℕ} (us : List (Vector ℚ m)) (h : allZero us = true) :
+    us.map Vector.get = List.replicate us.length (0 : Fin m → ℚ) := by
+  rw [List.eq_replicate_iff]
+  refine ⟨by simp, ?_⟩
+  intro b hb
+  obtain ⟨u, hu, rfl⟩ := List.mem_map.1 hb
+  funext i
+  exact (allZero_iff us).1 h u hu i
+
 end Validation
 
 end CtrlVerif.TimeResp
